@@ -6,7 +6,7 @@ package opshell
 // comment-only and is compiled only with -tags verif.
 
 //@ type Shell as s
-//@   nonnil t, silenceTimer
+//@   nonnil t, silenceTimer, insertGen
 //@   lock wL protects silenced, lastPlainWrite
 
 // ---- Ctrl+O mute (C19) and plain output (C03)
@@ -107,7 +107,7 @@ package opshell
 // ---- set-up and tear-down of the terminal (C20)
 //@ func New(ich, och, prompt, noTimestamps, insertGen, insertName) (sh, cleanup, err)
 //@   props C20
-//@   nilable ich, och, insertGen
+//@   nilable ich, och
 //@   ghost opened bool = false
 //@   ghost raw bool = false
 //@   ghost nCleanup int = 0
@@ -130,3 +130,59 @@ package opshell
 //@   on enter os.File.Close(f): assert(f == s.ttyF, "closes_the_tty"); nClose++
 //@   ensures restored_iff_saved: iff(nRestore == 1, oldState != nil) && nRestore <= 1
 //@   ensures tty_closed: nClose == 1
+
+// ---- operator input (C02): every line read from the terminal is put on the
+// input channel exactly once, in the order read, before the next is read; a
+// read failure ends the reader without sending anything.
+//@ func Shell.Do#1() (err)
+//@   props C02
+//@   ghost have bool = false
+//@   ghost cur string = ""
+//@   ghost failed bool = false
+//@   on call goxterm.Terminal.ReadLine(t) (l, e): assert(!have && !failed && t == s.t, "previous_line_sent_before_the_next_is_read"); if e == nil { have = true; cur = l } else { failed = true }
+//@   on send s.ich(v): assert(have && v == cur, "sends_exactly_the_line_just_read_once"); have = false
+//@   loop 1
+//@     invariant nothing_pending: !have && !failed
+//@   ensures nothing_pending_at_the_end: !have
+//@   ensures read_failure_ends_the_reader: imp(failed, err != nil)
+
+// Do starts the three activities in one group and returns what the group
+// returns.
+//@ func Shell.Do(s, ctx) (err)
+//@   props C02 C19 C20
+//@   ghost nWinch int = 0
+//@   ghost nOut int = 0
+//@   ghost nIn int = 0
+//@   ghost nWait int = 0
+//@   ghost res error = nil
+//@   on enter ctxerrgroup.Group.GoContext(g, c, f): assert(g == eg && c == ectx && nWait == 0, "activities_run_in_the_group_with_its_context"); if nWinch == 0 { nWinch++ } else { nOut++ }
+//@   on enter ctxerrgroup.Group.Go(g, f): assert(g == eg && nWait == 0, "reader_runs_in_the_group"); nIn++
+//@   on call ctxerrgroup.Group.Wait(g) (e): assert(g == eg && nWinch == 1 && nOut == 1 && nIn == 1, "waits_after_starting_everything"); res = e; nWait++
+//@   ensures returns_the_groups_result: nWait == 1 && err == res
+
+// resize gives the terminal the size of the tty.
+//@ func Shell.resize(s) (err)
+//@   props C20
+//@   ghost gw int = 0
+//@   ghost gh int = 0
+//@   ghost gerr bool = false
+//@   ghost n int = 0
+//@   on call goxterm.GetSize(fd) (w, h, e): assert(fd == int(s.ttyF.Fd()), "size_of_the_opened_tty"); gw = w; gh = h; gerr = e != nil
+//@   on call goxterm.Terminal.SetSize(t, w, h) (e): assert(t == s.t && !gerr && w == gw && h == gh && n == 0, "terminal_gets_the_ttys_size"); n++
+//@   ensures size_failure_reported: imp(gerr, err != nil && n == 0)
+
+// insert: what Ctrl+I sends to the shell is exactly what the generator
+// returned, once, and only if it is not empty.
+//@ func Shell.insert(s)
+//@   props C17 C02
+//@   ghost gen []byte = nil
+//@   ghost genErr bool = false
+//@   ghost nGen int = 0
+//@   ghost mw io.Writer = nil
+//@   ghost nMW int = 0
+//@   ghost nWrite int = 0
+//@   on call s.insertGen() (bb, e): assert(nGen == 0, "payload_generated_once_per_keypress"); gen = bb; genErr = e != nil; nGen++
+//@   on call io.MultiWriter(ws) (w): assert(nGen == 1 && !genErr && len(gen) != 0 && len(ws) == 2 && nMW == 0, "payload_goes_to_the_shell_and_the_hash"); mw = w; nMW++
+//@   on call io.Writer.Write(w, p) (n, e): assert(nMW == 1 && w == mw && p == gen && nWrite == 0, "exactly_the_generated_bytes_are_written_once"); nWrite++
+//@   ensures nothing_sent_without_a_payload: imp(genErr || len(gen) == 0, nWrite == 0)
+//@   ensures payload_sent_once: imp(!genErr && len(gen) != 0, nWrite == 1)
